@@ -11,7 +11,7 @@ import numpy as np
 from .. import real
 
 LEVEL = "exploration"
-TECHNIQUE = "runtime monitoring: the undecorated function is the specification - generated callables (all five parameter kinds, defaults, hostile parameter names, def/async def/lambda, method/classmethod/staticmethod/property) are called plain and decorated with the same argument objects; body-run counter, id() of every received argument, result/exception identity and metadata are compared; class construction with inherited __init__; a typechecker with a cross-parameter constraint; quoted annotations; decorated calls and config updates made from a __repr__ while the library formats an error message; properties derived from a decorated property with .getter/.setter/.deleter"
+TECHNIQUE = "runtime monitoring: the undecorated function is the specification - generated callables (all five parameter kinds, defaults, hostile parameter names, def/async def/lambda, method/classmethod/staticmethod/property) are called plain and decorated with the same argument objects; body-run counter, id() of every received argument, result/exception identity and metadata are compared; class construction with inherited __init__; a typechecker with a cross-parameter constraint; quoted annotations; decorated calls and config updates made from a __repr__ while the library formats an error message; properties derived from a decorated property with .getter/.setter/.deleter; functions without return annotation whose bodies update their arguments in place"
 LEVEL_TEXT = (
     "Held on every generated callable x argument list explored (thousands of signatures per run; binding well-typed, "
     "ill-typed and non-binding calls; both typecheckers). Sampling over signatures, not proof."
